@@ -215,3 +215,44 @@ def writes_between(G, f, var_ids, guards, use):
                 # a write inside the guard expression itself (while (i++ < n)) also counts
                 return e
     return None
+
+
+FALL = object()
+
+
+def result3(ev, stmts):
+    """Three-valued boolean result of a loop-free statement list under the bindings of ev: True / False / None (unknown),
+    or FALL when control falls out of the end without returning.  Expression statements and declarations are skipped
+    (locals are read through their single initialiser by the evaluator, reassigned ones are unknown); a loop or switch
+    that contains a return makes the result unknown."""
+    for st in stmts:
+        k = st.get('k')
+        if k == 'return':
+            if st.get('e') is None:
+                return None
+            return ev.ev3(st['e'])
+        if k == 'block':
+            r = result3(ev, st['s'])
+            if r is not FALL:
+                return r
+            continue
+        if k == 'if':
+            c = ev.ev3(st['c'])
+            if c is None:
+                a = result3(ev, [st['then']])
+                b = result3(ev, [st['else']]) if st.get('else') else FALL
+                if a is FALL and b is FALL:
+                    continue
+                return None
+            br = st['then'] if c else st.get('else')
+            if br is not None:
+                r = result3(ev, [br])
+                if r is not FALL:
+                    return r
+            continue
+        if k in ('expr', 'decl', 'null', 'empty'):
+            continue
+        from ir import walk_stmts as _ws
+        if any(x.get('k') == 'return' for x in _ws(st)):
+            return None
+    return FALL
